@@ -262,6 +262,9 @@ pub fn run(tier: Tier) -> i32 {
     specs.extend(gen::family_conditions(0));
     specs.extend(gen::family_bodies(0));
     specs.extend(gen::family_regex(3));
+    specs.extend(gen::family_castconds(0).into_iter().step_by(if th { 1 } else { 3 }));
+    specs.extend(gen::family_paths(0));
+    specs.extend(gen::family_wide().into_iter().step_by(4));
     let mx = gen::family_matrix(0);
     specs.extend(mx.into_iter().step_by(if th { 2 } else { 9 }));
     if th {
